@@ -2,7 +2,7 @@ import Goyang.Model.Process
 import Goyang.Spec.Deviate
 
 namespace Goyang.Lemmas.Deviate
-open Goyang.Model
+open Goyang.Model Goyang.Spec.Deviate
 
 /-! ### trees: what `updateAt` and `removeAt` leave alone -/
 
@@ -346,5 +346,115 @@ theorem getAt_removeAt_frame (root : Entry) (p q : Path) (h : ¬ p <+: q) :
           exact h ⟨r, by simp⟩
         simp [dropStep_other hs]
   · exact getAt_updateAt_frame _ pd q (dropStep_stable s pd) root hpd
+
+
+/-! ### one deviate statement: the model in stages
+
+`applyOneDeviate` is one long expression; the same function written as a pipeline of stages, one per
+property, in the order the Go code visits them (`rfl` shows it is the same function). -/
+
+def listLike (n : Entry) : Bool := n.isList || n.isLeafList
+def setMin (n : Entry) (v : Nat) : Entry :=
+  n.withD fun d => { d with listAttr := d.listAttr.map fun la => { la with min := v } }
+def setMax (n : Entry) (v : Nat) : Entry :=
+  n.withD fun d => { d with listAttr := d.listAttr.map fun la => { la with max := v } }
+def specMin (sd : EData) : Nat := (sd.listAttr.getD {}).min
+def specMax (sd : EData) : Nat := (sd.listAttr.getD {}).max
+def nodeMin (n : Entry) : Nat := (n.d.listAttr.getD {}).min
+def nodeMax (n : Entry) : Nat := (n.d.listAttr.getD {}).max
+
+def stCfg (sd : EData) (n : Entry) : Entry :=
+  if sd.config != .unset then n.withD fun d => { d with config := sd.config } else n
+def stMand (sd : EData) (n : Entry) : Entry :=
+  if sd.mandatory != .unset then n.withD fun d => { d with mandatory := sd.mandatory } else n
+def stDefAR (ms : Stmt) (isAdd : Bool) (sd : EData) (n : Entry) : Entry × List Err :=
+  if sd.default.isEmpty then (n, [])
+  else if isAdd then
+    if n.isLeafList then (n.withD fun d => { d with default := d.default ++ sd.default }, [])
+    else if sd.default.length > 1 then (n, [Err.at_ ms "deviate-add-many-defaults"])
+    else if !n.d.default.isEmpty then (n, [Err.at_ ms "deviate-add-default-exists"])
+    else (n.withD fun d => { d with default := sd.default.take 1 }, [])
+  else (n.withD fun d => { d with default := sd.default }, [])
+def stUnits (sd : EData) (n : Entry) : Entry :=
+  if sd.units != "" then n.withD fun d => { d with units := sd.units } else n
+def stType (sd : EData) (n : Entry) : Entry :=
+  if sd.type.isSome then n.withD fun d => { d with type := sd.type } else n
+
+/-- `add` (`isAdd`) and `replace`. -/
+def addReplace (ms : Stmt) (isAdd : Bool) (spec node : Entry) : Entry × Bool × List Err :=
+  let sd := spec.d
+  let n1 := stCfg sd node
+  let r2 := stDefAR ms isAdd sd n1
+  let n3 := stMand sd r2.1
+  if sd.hasMin && !listLike n3 then (n3, false, r2.2 ++ [Err.bare "deviate-min-nonlist"]) else
+  let n4 := if sd.hasMin then setMin n3 (specMin sd) else n3
+  if sd.hasMax && !listLike n4 then (n4, false, r2.2 ++ [Err.bare "deviate-max-nonlist"]) else
+  let n5 := if sd.hasMax then setMax n4 (specMax sd) else n4
+  (stType sd (stUnits sd n5), false, r2.2)
+
+def stCfgDel (sd : EData) (n : Entry) : Entry :=
+  if sd.config != .unset then n.withD fun d => { d with config := .unset } else n
+def stMandDel (sd : EData) (n : Entry) : Entry :=
+  if sd.mandatory != .unset then n.withD fun d => { d with mandatory := .unset } else n
+def stDefDel (ms : Stmt) (sd : EData) (n : Entry) : Entry × List Err :=
+  if sd.default.isEmpty then (n, [])
+  else if n.isLeafList then (n, [Err.at_ ms "deviate-delete-default-leaflist"])
+  else if n.d.default.isEmpty then (n, [Err.at_ ms "deviate-delete-default-missing"])
+  else if sd.default.head? != n.d.default.head? then (n, [Err.at_ ms "deviate-delete-default-mismatch"])
+  else (n.withD fun d => { d with default := [] }, [])
+
+/-- `delete`. -/
+def delete_ (ms : Stmt) (spec node : Entry) : Entry × Bool × List Err :=
+  let sd := spec.d
+  let n1 := stCfgDel sd node
+  let r2 := stDefDel ms sd n1
+  let n3 := stMandDel sd r2.1
+  if sd.hasMin && !listLike n3 then (n3, false, r2.2 ++ [Err.bare "deviate-min-nonlist"]) else
+  let r4 : Entry × List Err :=
+    if sd.hasMin then
+      (setMin n3 0, if nodeMin n3 != specMin sd then r2.2 ++ [Err.bare "deviate-delete-min-mismatch"] else r2.2)
+    else (n3, r2.2)
+  if sd.hasMax && !listLike r4.1 then (r4.1, false, r4.2 ++ [Err.bare "deviate-max-nonlist"]) else
+  let r5 : Entry × List Err :=
+    if sd.hasMax then
+      (setMax r4.1 maxU64, if nodeMax r4.1 != specMax sd then r4.2 ++ [Err.bare "deviate-delete-max-mismatch"] else r4.2)
+    else r4
+  (r5.1, false, r5.2)
+
+def notSupported (opts : Opts) (ms : Stmt) (hasParent : Bool) (node : Entry) : Entry × Bool × List Err :=
+  if !hasParent then (node, false, [Err.at_ ms "deviate-no-parent"])
+  else (node, !opts.ignoreNotSupported, [])
+
+/-- The argument of a deviate statement. -/
+def kindOf (k : String) : DevKind :=
+  if k = "add" then .add else if k = "replace" then .replace else if k = "not-supported" then .notSupported
+  else if k = "delete" then .delete else .other
+
+/-- `applyOneDeviate`, by kind. -/
+def staged (opts : Opts) (ms : Stmt) (kind : String) (spec : Entry) (hasParent : Bool) (node : Entry) :
+    Entry × Bool × List Err :=
+  match kindOf kind with
+  | .add => addReplace ms true spec node
+  | .replace => addReplace ms false spec node
+  | .notSupported => notSupported opts ms hasParent node
+  | .delete => delete_ ms spec node
+  | .other => (node, false, [Err.bare "deviate-unknown-kind"])
+
+theorem applyOneDeviate_eq_staged (opts : Opts) (ms : Stmt) (kind : String) (spec : Entry) (hp : Bool) (node : Entry) :
+    applyOneDeviate opts ms kind spec hp node = staged opts ms kind spec hp node := by
+  by_cases h1 : kind = "add"
+  · subst h1; rfl
+  by_cases h2 : kind = "replace"
+  · subst h2; rfl
+  by_cases h3 : kind = "not-supported"
+  · subst h3; rfl
+  by_cases h4 : kind = "delete"
+  · subst h4; rfl
+  have e1 : (kind == "add") = false := by simp [h1]
+  have e2 : (kind == "replace") = false := by simp [h2]
+  have e3 : (kind == "not-supported") = false := by simp [h3]
+  have e4 : (kind == "delete") = false := by simp [h4]
+  unfold applyOneDeviate staged kindOf
+  simp only [e1, e2, e3, e4, h1, h2, h3, h4, Bool.false_or, Bool.false_eq_true, if_false]
 
 end Goyang.Lemmas.Deviate
